@@ -3,7 +3,7 @@
 From Coq Require Import ZArith QArith List Bool String Ascii.
 From Coq Require Import Floats.PrimFloat.
 From PAFCommon Require Import PyFloat PyNum.
-From PAFC07 Require Import Gen Model Proofs1 Proofs2 Proofs3 Proofs4 Refute.
+From PAFC07 Require Import Gen Model Proofs1 Proofs2 Proofs3 Proofs4 Proofs5 Proofs6 Refute.
 Import ListNotations.
 Open Scope string_scope.
 Open Scope list_scope.
@@ -30,8 +30,15 @@ Theorem C07_output_id_same : forall (ps : float -> string) (s m : node) (tag : o
 Proof. exact fit_output_same. Qed.
 
 (* ---------------- reload from the fit's own files ---------------- *)
+(* every composition inside the guard (everything but -x / abs x and components without a free parameter;
+   arithmetic priors under ANY caller-derived names, list-built collections, all prior families, all searches)
+   reloads to a possibly different tree with the same visible part *)
+Theorem C07_roundtrip_same_description : forall n : node,
+  reload_ok n = true -> exists n', reload n = Some n' /\ strip (reify n') = strip (reify n).
+Proof. exact reload_same. Qed.
+
 Theorem C07_roundtrip_partial : forall (md5 : string -> string) (ps : float -> string) (s m : node) (tag : option string),
-  reloadable s = true -> reloadable m = true ->
+  reload_ok s = true -> reload_ok m = true ->
   exists s' m', reload s = Some s' /\ reload m = Some m' /\
                 ident md5 ps (fit_obj_output s' m' tag) = ident md5 ps (fit_obj s m tag).
 Proof. exact roundtrip_partial. Qed.
@@ -41,24 +48,10 @@ Theorem C07_roundtrip_refuted :
   ~ (forall t, exists t', reload t = Some t' /\ forall ps, tokens ps (reify t') = tokens ps (reify t)).
 Proof. exact roundtrip_refuted. Qed.
 
-(* (the hypotheses of the next theorems are facts read from the source on every run: they are true for the
-   code as it stands and turn false when the corresponding defect is repaired) *)
-Theorem C07_roundtrip_arith_refuted : compound_idf = None -> changes_on_reload arith_model.
-Proof. exact reload_changes_arith. Qed.
-
-Theorem C07_roundtrip_item_number_refuted : reload_restores_item_number = false -> changes_on_reload list_coll.
-Proof. exact reload_changes_item_number. Qed.
-
 Theorem C07_roundtrip_fixed_model_refuted : changes_on_reload fixed_inside.
 Proof. exact reload_changes_fixed_model. Qed.
 
-Theorem C07_roundtrip_log_gaussian_refuted : log_gaussian_dict = false -> reload log_gaussian_model = None.
-Proof. exact reload_fails_log_gaussian. Qed.
-
-Theorem C07_roundtrip_drawer_refuted : drawer_json_readable = false -> reload drawer = None.
-Proof. exact reload_fails_drawer. Qed.
-
-Theorem C07_roundtrip_negated_prior_refuted : reload negated_model = None.
+Theorem C07_roundtrip_modified_prior_refuted : reload negated_model = None /\ reload negated_sum_model = None.
 Proof. exact reload_fails_negated. Qed.
 
 (* ---------------- sensitive: local changes are visible in the joined description ---------------- *)
@@ -178,25 +171,71 @@ Theorem C07_rounding_grid : forall (a : Q) (k : Z),
   round8_Q resolution_Q a == resolution_Q * inject_Z k.
 Proof. exact rounding_grid. Qed.
 
+(* the attribute names arithmetic priors take from the caller's variables are invisible (for the code as it is:
+   the proofs read CompoundPrior / ModifiedPrior.__identifier_fields__ from the regenerated Gen.v) *)
+Theorem C07_stable_binop_names : forall (ps : float -> string) mid mid' c ln rn ln' rn' l r,
+  tokens ps (reify (NBinop mid c ln rn l r)) = tokens ps (reify (NBinop mid' c ln' rn' l r)).
+Proof. exact binop_names_irrelevant. Qed.
+
+Theorem C07_stable_unop_name : forall (ps : float -> string) mid mid' c pn pn' a,
+  tokens ps (reify (NUnop mid c pn a)) = tokens ps (reify (NUnop mid' c pn' a)).
+Proof. exact unop_name_irrelevant. Qed.
+
+(* renamed component / parameter, one more item / attribute (leaves for C07_sensitive_model) *)
+Theorem C07_leaf_collection_key : forall (ps : float -> string) mid mid' n a1 k k' v a2,
+  visible k = true -> visible k' = true -> k <> k' ->
+  cat_t (tokens ps (reify (NColl mid n (a1 ++ (k, v) :: a2)))) <> cat_t (tokens ps (reify (NColl mid' n (a1 ++ (k', v) :: a2)))).
+Proof. exact leaf_collection_key. Qed.
+
+Theorem C07_leaf_model_attribute_name : forall (ps : float -> string) mid mid' lbl lbl' cls cargs a1 k k' v a2,
+  visible k = true -> visible k' = true -> k <> k' ->
+  cat_t (tokens ps (reify (NModel mid lbl cls cargs (a1 ++ (k, v) :: a2)))) <>
+  cat_t (tokens ps (reify (NModel mid' lbl' cls cargs (a1 ++ (k', v) :: a2)))).
+Proof. exact leaf_model_attribute_name. Qed.
+
+Theorem C07_leaf_collection_item_added : forall (ps : float -> string) mid mid' n a1 k v a2,
+  visible k = true ->
+  cat_t (tokens ps (reify (NColl mid n (a1 ++ a2)))) <> cat_t (tokens ps (reify (NColl mid' n (a1 ++ (k, v) :: a2)))).
+Proof. exact leaf_collection_item_added. Qed.
+
+Theorem C07_leaf_model_attribute_added : forall (ps : float -> string) mid mid' lbl lbl' cls cargs a1 k v a2,
+  visible k = true ->
+  cat_t (tokens ps (reify (NModel mid lbl cls cargs (a1 ++ a2)))) <>
+  cat_t (tokens ps (reify (NModel mid' lbl' cls cargs (a1 ++ (k, v) :: a2)))).
+Proof. exact leaf_model_attribute_added. Qed.
+
+(* binary64, ranges stated: on 3 x 4096 consecutive points of the 1e-8 grid (near 0, 1 and 1000) grid points are
+   fixed points of the rounding, neighbours differ, +0.25 / +0.75 of a step are identified with the point below /
+   above, and values 1.5 steps apart are separated *)
+Theorem C07_rounding_binary64 : forall n : Z, in_swept_range n -> grid_ok n = true.
+Proof. exact grid_rounding_F. Qed.
+
 (* ---------------- the full sensitivity statement does not hold ---------------- *)
 (* which places share a parameter is invisible *)
 Theorem C07_sensitive_sharing_refuted :
   ~ (forall ps t t', tokens ps (reify t) = tokens ps (reify t') -> sharing_pattern t = sharing_pattern t').
 Proof. exact sharing_refuted. Qed.
 
-(* names of the caller's variables are visible while CompoundPrior declares no identifier fields ... *)
-Theorem C07_stable_names_refuted :
-  compound_idf = None ->
-  ~ (forall ps mid c ln rn ln' rn' l r,
-       tokens ps (reify (NBinop mid c ln rn l r)) = tokens ps (reify (NBinop mid c ln' rn' l r))).
-Proof. exact names_refuted. Qed.
+(* fixed values the walk has no branch for are dropped; so are keyword-only / renamed constructor arguments *)
+Theorem C07_sensitive_dropped_value_refuted :
+  np3 <> np4 /\ forall ps C, frame C -> tokens ps (C np3) = tokens ps (C np4).
+Proof. exact dropped_value_refuted. Qed.
 
-(* ... and invisible once it does (the repaired code) *)
-Theorem C07_stable_names_when_fields_declared : forall fs : list string,
-  compound_idf = Some fs ->
-  forall ps mid c ln rn ln' rn' l r,
-    tokens ps (reify (NBinop mid c ln rn l r)) = tokens ps (reify (NBinop mid c ln' rn' l r)).
-Proof. exact names_irrelevant. Qed.
+Theorem C07_sensitive_dropped_argument_refuted :
+  kwonly 1 <> kwonly 5 /\ forall ps, tokens ps (reify (kwonly 1)) = tokens ps (reify (kwonly 5)).
+Proof. exact dropped_argument_refuted. Qed.
+
+(* values of different types share a token *)
+Theorem C07_sensitive_type_collapse_refuted :
+  NStr "1.0" <> NFloat 1 /\ NStr "True" <> NBool true /\ NStr "3" <> NInt 3 /\
+  tokens ps0 (reify (NStr "1.0")) = tokens ps0 (reify (NFloat 1)) /\
+  (forall ps, tokens ps (reify (NStr "True")) = tokens ps (reify (NBool true))) /\
+  (forall ps, tokens ps (reify (NStr "3")) = tokens ps (reify (NInt 3))).
+Proof. exact type_collapse_refuted. Qed.
+
+(* the order in which the items of a collection were given is visible *)
+Theorem C07_stable_item_order_refuted : forall ps, tokens ps (reify coll_xy) <> tokens ps (reify coll_yx).
+Proof. exact item_order_refuted. Qed.
 
 (* different compositions with one joined description (no end markers; separator not escaped) *)
 Theorem C07_sensitive_injective_refuted :
@@ -210,7 +249,8 @@ Proof. exact dot_join_witness. Qed.
 
 Print Assumptions C07_stable.
 Print Assumptions C07_stable_ids_labels.
-Print Assumptions C07_roundtrip_partial.
+Print Assumptions C07_roundtrip_same_description.
+Print Assumptions C07_rounding_binary64.
 Print Assumptions C07_sensitive_context.
 Print Assumptions C07_sensitive_model.
 Print Assumptions C07_rounding_separates.
